@@ -233,7 +233,7 @@ def check_precomp_256(fx, p):
     for pth, ret, outs in res:
         if isinstance(ret, tuple) and ret and ret[0] == 'diverges':
             return I, 'a path panics (%r)' % (ret[1],)
-        lits = tt.path_literals(pth)
+        lits = tt.path_literals_add(pth)
         other = [l for l in lits if l[0] != kz and not (isinstance(l[0], tuple) and l[0] and l[0][0] == 'infinity')]
         ident = any((l[0] == kz or (isinstance(l[0], tuple) and l[0] and l[0][0] == 'infinity')) and l[1] for l in lits)
         if other:
@@ -408,7 +408,7 @@ def rule_wnaf_table(fx, rep):
                 bad.append('w=%d: a path panics' % w)
                 continue
             out = outs_.get(1)
-            lits = tt.path_literals(pth_)
+            lits = tt.path_literals_add(pth_)
             if [l for l in lits if l[0] != kz]:
                 bad.append('w=%d: the table depends on %r' % (w, [l[2] for l in lits if l[0] != kz][0]))
                 continue
